@@ -143,10 +143,37 @@ fn build(c: &Case) -> (ElfSpec, Vec<(u64, Vec<String>)>) {
                 Sym { name: Some("defined_here".into()), value: b, shndx: 4, info: 0x12 },
             ])
         }
-        _ => {
+        5 => {
             // a symbol at the entry point (competes with the synthetic `_start`)
-            expect.push((entry, vec!["main_entry".into(), "_start".into()]));
+            // the file's own symbol is the one "defined there": the synthetic name may only stand
+            // in where the file defines nothing
+            expect.push((entry, vec!["main_entry".into()]));
             Some(vec![Sym { name: Some("main_entry".into()), value: entry, shndx: 4, info: 0x12 }])
+        }
+        6 => {
+            // an unnamed section symbol BEFORE the named one, at another address: the walk over
+            // the table must not end at the first symbol without a name
+            expect.push((b, vec!["after_unnamed".into()]));
+            Some(vec![
+                Sym { name: None, value: a, shndx: 4, info: 0x03 },
+                Sym { name: Some("after_unnamed".into()), value: b, shndx: 4, info: 0x12 },
+            ])
+        }
+        7 => {
+            // a data object (STT_OBJECT, local binding) is a defined symbol like any function
+            expect.push((b, vec!["data_obj".into()]));
+            Some(vec![Sym { name: Some("data_obj".into()), value: b, shndx: 4, info: 0x01 }])
+        }
+        _ => {
+            // symbols at the very last byte of the first segment's memory image (in its bss
+            // tail when it has one) and, before it in the table, at its first byte
+            let last = base0 + m0.saturating_sub(1);
+            expect.push((last, vec!["last_byte".into(), "first_byte".into()]));
+            expect.push((base0, vec!["first_byte".into(), "last_byte".into()]));
+            Some(vec![
+                Sym { name: Some("first_byte".into()), value: base0, shndx: 4, info: 0x12 },
+                Sym { name: Some("last_byte".into()), value: last, shndx: 4, info: 0x11 },
+            ])
         }
     };
     let _ = a;
@@ -233,11 +260,11 @@ fn gen(thorough: bool) -> impl Fn(&mut EnumCtx) + Sync {
                 return;
             }
             let variants: Vec<(usize, usize, usize)> = if rotate {
-                vec![(counter % 2, counter % 6, (counter / 6) % 2)]
+                vec![(counter % 2, counter % 9, (counter / 9) % 2)]
             } else {
                 let mut v = vec![];
                 for ex in 0..2 {
-                    for sy in 0..6 {
+                    for sy in 0..9 {
                         for en in 0..2 {
                             v.push((ex, sy, en));
                         }
@@ -361,7 +388,7 @@ pub fn run(tier: Tier) -> i32 {
         return crate::common::finish_replay("C15", &art, &|ws| confirm_enum(&o, &g, ws));
     }
     let out = run_enum(&o, &g);
-    enum_evidence(&mut run, &out, "one case = a generated ET_EXEC file: 1-3 (thorough: 4 over the boundary shapes) PT_LOAD segments in every program-header order over page slots {0x400000, 0x401000, 0x403000, 0x10000000}, in-page offset {0, 0x10, 0xE10} (p_offset congruent), filesz {0, 1, 0x1F0, to page end, 0x1000, 0x2000}, bss tail {0, 1, to page end, 0x1800}, all 8 flag masks (single segment), optional PT_PHDR/PT_NOTE/PT_GNU_STACK, 6 symbol-table variants, entry at segment start or middle; only combinations whose segments occupy distinct pages; oracle = the writer's own parameters; states = distinct files; distinct_nontrivial = distinct (file, number of violated clauses)");
+    enum_evidence(&mut run, &out, "one case = a generated ET_EXEC file: 1-3 (thorough: 4 over the boundary shapes) PT_LOAD segments in every program-header order over page slots {0x400000, 0x401000, 0x403000, 0x10000000}, in-page offset {0, 0x10, 0xE10} (p_offset congruent), filesz {0, 1, 0x1F0, to page end, 0x1000, 0x2000}, bss tail {0, 1, to page end, 0x1800}, all 8 flag masks (single segment), optional PT_PHDR/PT_NOTE/PT_GNU_STACK, 9 symbol-table variants (none; one function; two names at one address; a named and an unnamed symbol at one address; an undefined symbol next to a defined one; a symbol at the entry; an unnamed section symbol before a named one; a data object; symbols at the first and the last byte of the image), entry at segment start or middle; only combinations whose segments occupy distinct pages; oracle = the writer's own parameters; states = distinct files; distinct_nontrivial = distinct (file, number of violated clauses)");
     run.guard("cases", out.cases >= 50_000 || out.capped, format!("{} files", out.cases));
     run.assume("ET_EXEC with p_vaddr != 0; executable stacks, TLS and dynamic segments are outside 'static well-formed' and exercised by C16");
     let code = run.finish_batch(&|ws| confirm_enum(&o, &g, ws));
